@@ -453,11 +453,55 @@ func monWindow(w *World) {
 		}
 		sortEvts()
 		mbase, mtop := 0, 0 // unbounded model window [mbase, mtop)
+		// An acknowledgement counts from its delivery on, but the endpoint
+		// may process it later than that (its receive goroutine can be
+		// scheduled after the next transmission): one that had no effect
+		// when it was delivered is kept and may take effect later.
+		var late []evt
+		apply := func(e evt) bool {
+			switch e.kind {
+			case 'A':
+				for i := mbase; i < mtop; i++ {
+					if i%s == e.seq {
+						mbase = i + 1
+						return true
+					}
+				}
+			case 'N':
+				if e.seq == mtop%s {
+					if mbase != mtop {
+						mbase = mtop
+						return true
+					}
+					return false
+				}
+				for i := mbase + 1; i < mtop; i++ {
+					if i%s == e.seq {
+						mbase = i
+						return true
+					}
+				}
+			}
+			return false
+		}
 		for _, e := range evs {
 			switch e.kind {
 			case 'D':
 				if e.seq == mtop%s {
 					mtop++
+					for mtop-mbase > n && len(late) > 0 {
+						used := false
+						for k, le := range late {
+							if apply(le) {
+								late = append(late[:k:k], late[k+1:]...)
+								used = true
+								break
+							}
+						}
+						if !used {
+							break
+						}
+					}
 					if mtop-mbase > n {
 						w.fail("window/outstanding/"+dir,
 							"%s: %d data packets transmitted for the first time with only %d acknowledged by delivered ACK/NACKs: %d outstanding > N=%d",
@@ -465,22 +509,11 @@ func monWindow(w *World) {
 						return
 					}
 				}
-			case 'A':
-				for i := mbase; i < mtop; i++ {
-					if i%s == e.seq {
-						mbase = i + 1
-						break
-					}
-				}
-			case 'N':
-				if e.seq == mtop%s {
-					mbase = mtop
-				} else {
-					for i := mbase; i < mtop; i++ {
-						if i%s == e.seq {
-							mbase = i
-							break
-						}
+			case 'A', 'N':
+				if !apply(e) {
+					late = append(late, e)
+					if len(late) > 8 {
+						late = late[1:]
 					}
 				}
 			}
